@@ -281,6 +281,18 @@ def retval_label(body, r):
     if r["k"] == "agg" and r.get("ak") == "adt" and r.get("variant"):
         return "retval:" + r["variant"]
     if r["k"] == "use":
+        # `let res = Ok(x); ...; res` : the variant is visible at the definition of the moved value
+        vs = set()
+        if r["o"].get("k") in ("move", "copy"):
+            for o in body.origins(r["o"]["p"]):
+                if o.kind == "agg":
+                    st = body.blocks[o.site[0]]["s"][o.site[1]]
+                    if st["r"].get("ak") == "adt" and st["r"].get("variant"):
+                        vs.add(st["r"]["variant"])
+                        continue
+                vs.add(None)
+        if len(vs) == 1 and None not in vs:
+            return "retval:" + next(iter(vs))
         return "retval:move"
     if r["k"] == "agg":
         return "retval:agg"
